@@ -745,6 +745,43 @@ def loose_tol(kw, solver, fmt):
     return t
 
 
+EIGEN_ARPACK_SIG = {"symptom": "sparse eigensolver misses the zero eigenvalue of L^dag L"}
+
+
+def arpack_missed_null(s, fmt):
+    """is the lowest eigenvalue the sparse route of Qobj.eigenstates reports for
+    L^dag L far from zero although the generator is singular?"""
+    import qutip as qt
+    Hq, Cq = sys_qobjs(s, "csr")
+    Lq = qt.liouvillian(Hq, Cq)
+    M = Lq.dag() @ Lq
+    with warnings.catch_warnings():
+        warnings.simplefilter("ignore")
+        val, _ = M.eigenstates(eigvals=1, sort="low", sparse=True)
+    return bool(abs(val[0]) > 1e-8 * np.abs(M.full()).max())
+
+
+EIGEN_WITNESS = None
+
+
+def witness_eigen_sparse(ctx):
+    """qubit x 3-level system, both decaying at zero temperature"""
+    import qutip as qt
+    H = qt.tensor(qt.sigmaz(), qt.qeye(3)) + qt.tensor(qt.qeye(2), qt.num(3))
+    cs = [qt.tensor(qt.sigmam(), qt.qeye(3)), qt.tensor(qt.qeye(2), qt.destroy(3))]
+    with warnings.catch_warnings():
+        warnings.simplefilter("ignore")
+        ref = qt.steadystate(H, cs).full()
+        r = qt.steadystate(H, cs, method="eigen")
+    dev = float(np.abs(r.full() - ref).max())
+    if dev > 1e-5 or r.dims != H.dims:
+        ctx.violation("steadystate:eigen", EIGEN_ARPACK_SIG,
+                      "steadystate(method='eigen') on a decaying qubit x 3-level system differs "
+                      "from method='direct' by %.1e" % dev,
+                      {"witness": "H = sz x 1 + 1 x num(3); c_ops = [sm x 1, 1 x destroy(3)]",
+                       "dev": dev})
+
+
 def phase_symptom(M, rho_ex):
     """is M = c * rho_ex with complex c, Re c = 1 ?"""
     c = np.vdot(rho_ex, M) / np.vdot(rho_ex, rho_ex)
@@ -866,6 +903,9 @@ def oracle_system(ctx, s, cfgs, rng, stats, fmts):
             continue
         if guard is not None:
             stats["guarded_runs"] = stats.get("guarded_runs", 0) + 1
+        bad = check_result(s, L, rho_ex, r, method, solver, loose_tol(kw, solver, fmt))
+        if guard and bad:
+            guard = [g for g in guard if g != "second-call-differs"]   # covered by `bad` below
         if guard:
             # a steady state of a generator the call has altered is not a fixed
             # point of the one the caller holds
@@ -882,7 +922,14 @@ def oracle_system(ctx, s, cfgs, rng, stats, fmts):
             stats["ok"] += 1
             continue
         M = r.full()
-        if method == "svd" and phase_symptom(M, rho_ex):
+        if method == "eigen" and kw.get("sparse", True) and arpack_missed_null(s, fmt):
+            ctx.violation("steadystate:eigen", EIGEN_ARPACK_SIG,
+                          "steadystate(method='eigen') (sparse ARPACK route) returns an operator that "
+                          "is not a fixed point (max deviation %.1e): eigsh(L^dag L, k=1, which='SA') "
+                          "does not return the zero eigenvalue" % np.abs(M - rho_ex).max(),
+                          {"system": s, "cfg": [method, solver, kw], "fmt": fmt, "input": as_l,
+                           "seed": seed, "symptoms": bad})
+        elif method == "svd" and phase_symptom(M, rho_ex):
             sig = {"symptom": "result = (1 + i t) * rho_ss, t != 0",
                    "rho00": "zero" if rho00zero else "nonzero"}
             what = ("steadystate(method='svd') returns (1+i*t)*rho_ss (trace %s, not Hermitian): "
@@ -1602,6 +1649,7 @@ def run(ctx):
     witness_svd(ctx)
     witness_power_maxiter(ctx)
     witness_pinv_default(ctx)
+    witness_eigen_sparse(ctx)
     oracle_all(5 if quick else 40, rng)
     oracle_heom(ctx, stats, rng, quick)
     flush_deferred()
@@ -1644,6 +1692,8 @@ def replay(ctx, payload):
             ctx.violation(site, payload["signature"], "reproduced: %s" % bad, d)
     elif site == "steadystate:power":
         witness_power_maxiter(ctx)
+    elif site == "steadystate:eigen" and "witness" in d:
+        witness_eigen_sparse(ctx)
     elif site == "pseudo_inverse" and isinstance(d.get("system"), str):
         witness_pinv_default(ctx)
     elif site == "pseudo_inverse" and isinstance(d.get("system"), dict):
